@@ -122,6 +122,8 @@ def inversion_imaging_from(
     -------
     An `Inversion` whose type is determined by the input `dataset` and `settings`.
     """
+    preloads = preloads or Preloads()
+
     if all(
         isinstance(linear_obj, AbstractLinearObjFuncList)
         for linear_obj in linear_obj_list
@@ -207,6 +209,8 @@ def inversion_interferometer_from(
     -------
     An `Inversion` whose type is determined by the input `dataset` and `settings`.
     """
+    preloads = preloads or Preloads()
+
     try:
         from autoarray.inversion.inversion import inversion_util_secret
     except ImportError:
